@@ -444,6 +444,8 @@ def analyse(ctx, F, sfx):
                         ok_ = not wr_ and not calls_
         rep.check(r6, ok_, 'rpc:End-absorbing', 'the End arm of rpc_parse neither assigns the state nor calls a state-changing helper: %s' % ok_)
 
+        okv_, detv_, locv_ = rpc_verifier_never_awaited(F)
+        rep.check(r6, okv_, 'rpc:Verif-never-entered', 'the reviewed counter argument for read_string (data_len - 1) assumes RpcState::Verif is never awaited: ' + detv_, locv_)
         # the reviewed unwrap of generate() on the SYN / data arms rests on generate failing only for absent fields
         from rules import silence
         silence.check(ctx, r6, 'synackcookie::generate', silence.REASONS['synackcookie::generate'][1],
